@@ -54,7 +54,7 @@ impl TurtleConfig {
     }
 
     /// Indentation to use in serialization.
-    /// (defaults to `"  "`, can only contain ASCII whitespaces)
+    /// (defaults to `"  "`, can only contain space, tabulation, carriage return or line feed)
     ///
     /// NB: currently, only used if [`pretty`][`TurtleConfig::pretty`] is `true`.
     #[must_use]
@@ -98,10 +98,19 @@ impl TurtleConfig {
     /// Transform a [`TurtleConfig`] by setting the [`indentation`][`TurtleConfig::indentation`] flag.
     ///
     /// # Precondition
-    /// `indentation` must only contain ASCII whitespaces, otherwise this method will panic.
+    /// `indentation` must only contain Turtle white space
+    /// (space, tabulation, carriage return or line feed),
+    /// otherwise this method will panic.
+    ///
+    /// NB: other whitespace characters (e.g. form feed or no-break space)
+    /// are not white space in Turtle, and would make the output invalid.
     pub fn with_indentation<T: ToString>(mut self, indentation: T) -> Self {
         let indentation = indentation.to_string();
-        assert!(indentation.chars().all(char::is_whitespace));
+        assert!(
+            indentation
+                .chars()
+                .all(|c| matches!(c, ' ' | '\t' | '\r' | '\n'))
+        );
         self.indentation = indentation;
         self
     }
